@@ -76,7 +76,7 @@ def merge(recs, rep, K, prop):
             if d < 3 and s["level_end"][d + 1] == s["level_end"][d]:
                 break
         per_system[s["system"]] = {"parameters": s["nparams"], "alphabet_values": s["alphabet"], "points": s["points"],
-                                   "assignments": s["assignments"], "zero_pair_assignments": s.get("zero_pairs", 0), "relation_assignments": s.get("relation_pairs", 0), "structured_assignments": s.get("structured", 0), "family_zero_sets": s.get("family_sets", 0), "default_centred_assignments": s.get("default_ball", 0), "zero_families": s.get("families", ""), "assignments_run": sum(w["done"] for w in ws), "boundary_point_elements": sum(w.get("boundary_point_elements", 0) for w in ws),
+                                   "assignments": s["assignments"], "zero_pair_assignments": s.get("zero_pairs", 0), "relation_assignments": s.get("relation_pairs", 0), "structured_assignments": s.get("structured", 0), "family_zero_sets": s.get("family_sets", 0), "default_centred_assignments": s.get("default_ball", 0), "zero_families": s.get("families", ""), "assignments_run": sum(w["done"] for w in ws), "boundary_point_elements": sum(w.get("boundary_point_elements", 0) for w in ws), "comparisons_skipped_out_of_range": sum(w.get("out_of_range", 0) for w in ws),
                                    "inadmissible_skipped": sum(w["inadmissible"] for w in ws), "inadmissible_points_skipped": sum(w.get("inadmissible_points", 0) for w in ws),
                                    "completed_deviation_bound": comp, "timed_out": any(w["timed_out"] for w in ws)}
     # violations
